@@ -2570,3 +2570,13 @@ variant('t-sender-logs-before-the-write', ['C05', 'C01', 'C11'], RB,
         "                    async with self._get_next_frame_to_send(transport) as frame:\n                        try:\n",
         "                    async with self._get_next_frame_to_send(transport) as frame:\n                        logger().debug('%s: writing a frame', self._log_identifier())\n                        try:\n",
         kind='twin')
+
+# C03.e the frame carries the fragment size its builder was given
+variant('b-builder-leaves-the-size-out-for-frames-it-believes-to-fit', ['C03'], 'rsocket/frame_builders.py',
+        "    request.metadata = payload.metadata\n    request.fragment_size_bytes = fragment_size_bytes\n    return request\n\n\ndef to_request_response_frame",
+        "    request.metadata = payload.metadata\n    fits = fragment_size_bytes is None or request.compute_frame_length() + 3 <= fragment_size_bytes\n    request.fragment_size_bytes = None if fits else fragment_size_bytes\n    return request\n\n\ndef to_request_response_frame",
+        ('C03.e', 'to_request_stream_frame'))
+variant('t-builder-size-through-a-local', ['C03', 'C05'], 'rsocket/frame_builders.py',
+        "    request.metadata = payload.metadata\n    request.fragment_size_bytes = fragment_size_bytes\n    return request\n\n\ndef to_request_response_frame",
+        "    request.metadata = payload.metadata\n    size = fragment_size_bytes\n    request.fragment_size_bytes = size\n    return request\n\n\ndef to_request_response_frame",
+        kind='twin')
